@@ -23,6 +23,7 @@ import (
 	"github.com/33cn/chain33/common"
 	"github.com/33cn/chain33/common/address"
 	"github.com/33cn/chain33/common/crypto"
+	"github.com/33cn/chain33/common/difficulty"
 	"github.com/33cn/chain33/common/log"
 	"github.com/33cn/chain33/common/log/log15"
 	"github.com/33cn/chain33/common/merkle"
@@ -55,7 +56,7 @@ func UseFastTmp() func() {
 	if st, err := os.Stat("/dev/shm"); err != nil || !st.IsDir() {
 		return func() {}
 	}
-	d, err := os.MkdirTemp("/dev/shm", "verif-chain-")
+	d, err := os.MkdirTemp("/dev/shm", fmt.Sprintf("verif-chain-%d-", os.Getpid()))
 	if err != nil {
 		return func() {}
 	}
@@ -319,7 +320,8 @@ type ChainSnapshot struct {
 	TipHash  string
 	Hashes   []string            // height -> hash
 	Headers  []string            // height -> hex(header proto)
-	Bodies   []string            // height -> hex(hash of encoded BlockDetail{Block, Receipts})
+	Bodies   []string            // height -> digests of the persisted block (header + transactions) and receipts
+	Served   []string            // height -> the same as served by the query API (MainHash/MainHeight cleared)
 	Tds      []string            // height -> total difficulty (decimal)
 	Txs      map[string]TxRecord // tx hash -> index record
 	State    map[string]string   // address -> balance/frozen at the tip
@@ -361,14 +363,31 @@ func (n *Node) Snapshot(extraTxs [][]byte, addrs []string) (*ChainSnapshot, erro
 			return nil, fmt.Errorf("block at %d: %v", h, err)
 		}
 		d := ds.Items[0]
-		body := &types.BlockDetail{Block: d.Block, Receipts: d.Receipts}
-		s.Bodies = append(s.Bodies, common.ToHex(common.Sha256(types.Encode(body))))
+		// what the query API serves (possibly from the block cache). MainHash / MainHeight are not
+		// compared here: a block connected directly is cached as delivered (fields empty), one
+		// connected by a reorganisation as loaded from the database (fields = own hash / height);
+		// the persisted form, compared below, is the same in both cases.
+		api := types.Clone(d.Block).(*types.Block)
+		api.MainHash, api.MainHeight = nil, 0
+		s.Served = append(s.Served, digest(&types.BlockDetail{Block: api, Receipts: d.Receipts}))
 		byHash, err := n.BlockByHash(hash)
 		if err != nil {
 			return nil, fmt.Errorf("block by hash at %d: %v", h, err)
 		}
-		if !bytes.Equal(types.Encode(&types.BlockDetail{Block: byHash.Block, Receipts: byHash.Receipts}), types.Encode(body)) {
-			return nil, fmt.Errorf("block at height %d differs between height and hash lookup", h)
+		bh := types.Clone(byHash.Block).(*types.Block)
+		bh.MainHash, bh.MainHeight = nil, 0
+		if x := digest(&types.BlockDetail{Block: bh, Receipts: byHash.Receipts}); x != s.Served[len(s.Served)-1] {
+			return nil, fmt.Errorf("block at height %d differs between height and hash lookup: %s / %s", h, s.Served[len(s.Served)-1], x)
+		}
+		// the persisted block: header + body + receipts tables, read from the database
+		pd, err := n.Chain.GetStore().LoadBlock(h, hash)
+		if err != nil || pd == nil {
+			return nil, fmt.Errorf("persisted block at %d: %v", h, err)
+		}
+		s.Bodies = append(s.Bodies, digest(&types.BlockDetail{Block: pd.Block, Receipts: pd.Receipts}))
+		if os.Getenv("VERIF_CHAIN_DEBUG") != "" {
+			js, _ := types.PBToJSON(&types.BlockDetail{Block: pd.Block, Receipts: pd.Receipts})
+			fmt.Fprintf(os.Stderr, "SNAP h=%d %s\n", h, js)
 		}
 		td, err := n.Td(hash)
 		if err != nil {
@@ -406,6 +425,12 @@ func (n *Node) Snapshot(extraTxs [][]byte, addrs []string) (*ChainSnapshot, erro
 	return s, nil
 }
 
+func digest(d *types.BlockDetail) string {
+	rc := &types.BlockDetail{Receipts: d.Receipts}
+	return fmt.Sprintf("block:%s receipts:%s(%d)", common.ToHex(common.Sha256(types.Encode(d.Block)))[:18],
+		common.ToHex(common.Sha256(types.Encode(rc)))[:18], len(d.Receipts))
+}
+
 // Diff lists the fields in which two snapshots differ (empty when identical).
 func (s *ChainSnapshot) Diff(o *ChainSnapshot) []string {
 	var d []string
@@ -433,6 +458,7 @@ func (s *ChainSnapshot) Diff(o *ChainSnapshot) []string {
 	cmp("hashes", s.Hashes, o.Hashes)
 	cmp("headers", s.Headers, o.Headers)
 	cmp("bodies", s.Bodies, o.Bodies)
+	cmp("served", s.Served, o.Served)
 	cmp("tds", s.Tds, o.Tds)
 	keys := map[string]bool{}
 	for k := range s.Txs {
@@ -460,7 +486,8 @@ func (s *ChainSnapshot) Diff(o *ChainSnapshot) []string {
 // Factory manufactures valid blocks on arbitrary parents.
 type Factory struct {
 	N     *Node
-	mu    sync.Mutex
+	mu    sync.Mutex // serialises executions on the factory node
+	nmu   sync.Mutex
 	nonce int64
 	Priv  crypto.PrivKey // genesis key: owns the coins
 	Addrs []string       // receivers of coins transfers
@@ -488,10 +515,10 @@ func (f *Factory) GenesisAddr() string { return f.N.Mock.GetGenesisAddress() }
 
 // CoinsTx makes a signed coins transfer (unique nonce) of amount to address index `to`.
 func (f *Factory) CoinsTx(to int, amount int64) *types.Transaction {
-	f.mu.Lock()
+	f.nmu.Lock()
 	f.nonce++
 	nonce := f.nonce
-	f.mu.Unlock()
+	f.nmu.Unlock()
 	tx := util.CreateCoinsTx(f.N.Cfg, nil, f.Addrs[to%len(f.Addrs)], amount)
 	tx.Nonce = nonce
 	tx.Expire = 0
@@ -501,10 +528,10 @@ func (f *Factory) CoinsTx(to int, amount int64) *types.Transaction {
 
 // NoneTx makes a signed transaction of the "none" executor.
 func (f *Factory) NoneTx() *types.Transaction {
-	f.mu.Lock()
+	f.nmu.Lock()
 	f.nonce++
 	nonce := f.nonce
-	f.mu.Unlock()
+	f.nmu.Unlock()
 	tx := util.CreateNoneTx(f.N.Cfg, nil)
 	tx.Nonce = nonce
 	tx.Expire = 0
@@ -513,10 +540,20 @@ func (f *Factory) NoneTx() *types.Transaction {
 }
 
 // Make builds a valid block on parent with the given transactions and difficulty bits
-// (0 = parent's), executing it on the parent's state in the factory's store
-// (util.ExecBlock with errReturn=false, sync=true, checkblock=false) so that the state
-// of the new block is committed there and children can be built on it.
+// (0 = parent's); see MakeOn.
 func (f *Factory) Make(parent *types.Block, txs []*types.Transaction, bits uint32) (*types.Block, error) {
+	if bits == 0 {
+		bits = parent.Difficulty
+	}
+	return f.MakeOn(parent.Hash(f.N.Cfg), parent.StateHash, parent.Height+1, parent.BlockTime+1, txs, bits)
+}
+
+// MakeOn builds a valid block whose parent has hash parentHash and state prevState, executing
+// it on that state in the factory's store (util.ExecBlock with errReturn=false, sync=true,
+// checkblock=false): StateHash and TxHash are the real ones and the new state is committed
+// there, so children can be built on it. The parent need not be a block the factory made
+// (e.g. an invalid sibling whose children are to look genuine): only its hash and a state matter.
+func (f *Factory) MakeOn(parentHash, prevState []byte, height, blockTime int64, txs []*types.Transaction, bits uint32) (*types.Block, error) {
 	if len(txs) == 0 {
 		return nil, errors.New("rig: solo consensus rejects empty blocks")
 	}
@@ -525,14 +562,15 @@ func (f *Factory) Make(parent *types.Block, txs []*types.Transaction, bits uint3
 	for i, tx := range txs {
 		in[i] = types.Clone(tx).(*types.Transaction)
 	}
-	blk := util.CreateNewBlock(cfg, parent, in)
-	blk.Difficulty = bits
-	if bits == 0 {
-		blk.Difficulty = parent.Difficulty
+	blk := &types.Block{Height: height, BlockTime: blockTime, ParentHash: append([]byte{}, parentHash...), Difficulty: bits}
+	blk.Txs = in
+	if cfg.IsFork(height, "ForkRootHash") {
+		blk.Txs = types.TransactionSort(blk.Txs)
 	}
+	blk.TxHash = merkle.CalcMerkleRoot(cfg, height, blk.Txs)
 	f.mu.Lock()
 	defer f.mu.Unlock()
-	detail, del, err := util.ExecBlock(f.N.Client(), parent.StateHash, blk, false, true, false)
+	detail, del, err := util.ExecBlock(f.N.Client(), prevState, blk, false, true, false)
 	if err != nil {
 		return nil, fmt.Errorf("rig: factory exec: %v", err)
 	}
@@ -540,7 +578,8 @@ func (f *Factory) Make(parent *types.Block, txs []*types.Transaction, bits uint3
 		return nil, fmt.Errorf("rig: factory dropped %d of %d transactions", len(del), len(txs))
 	}
 	for _, r := range detail.Receipts {
-		if r.Ty != types.ExecOk {
+		// ExecPack (fee taken, no effect) is a legitimate on-chain outcome, e.g. for the "none" executor
+		if r.Ty != types.ExecOk && r.Ty != types.ExecPack {
 			return nil, fmt.Errorf("rig: factory transaction receipt type %d", r.Ty)
 		}
 	}
@@ -551,7 +590,7 @@ func (f *Factory) Make(parent *types.Block, txs []*types.Transaction, bits uint3
 	return types.Clone(out).(*types.Block), nil
 }
 
-// Chain builds n blocks in a row on parent, one coins transfer each.
+// ChainOf builds n blocks in a row on parent, one coins transfer each.
 func (f *Factory) ChainOf(parent *types.Block, n int, bits uint32) ([]*types.Block, error) {
 	var out []*types.Block
 	for i := 0; i < n; i++ {
@@ -564,3 +603,24 @@ func (f *Factory) ChainOf(parent *types.Block, n int, bits uint32) ([]*types.Blo
 	}
 	return out, nil
 }
+
+// WorkBits returns compact difficulty bits whose work (difficulty.CalcWork) is exactly
+// w * 2^240 for w in {1, 2, 4}: targets 2^16-1, 2^15-1, 2^14-1, for which 2^256/(target+1)
+// is exact, so sums of works compare exactly like sums of the small integers.
+func WorkBits(w int) (uint32, error) {
+	switch w {
+	case 1:
+		return 0x0300ffff, nil
+	case 2:
+		return 0x03007fff, nil
+	case 4:
+		return 0x03003fff, nil
+	}
+	return 0, fmt.Errorf("rig: no exact difficulty bits for work %d (use 1, 2, 4)", w)
+}
+
+// Work is the work of a block as the chain computes it.
+func Work(b *types.Block) *big.Int { return difficulty.CalcWork(b.Difficulty) }
+
+// KnownOrphan tells whether the hash is in the node's orphan pool.
+func (n *Node) KnownOrphan(hash []byte) bool { return n.Chain.GetOrphanPool().IsKnownOrphan(hash) }
